@@ -17,6 +17,20 @@ import sys
 import time
 import traceback
 
+if os.environ.get('VERIF_SIM_NO_RIPEMD'):
+    # Simulated environment of the second pass: an OpenSSL 3 build without the legacy provider, where hashlib still LISTS
+    # ripemd160 in algorithms_available but hashlib.new('ripemd160') raises ValueError (Debian/Ubuntu 22.04, Fedora 36+ defaults).
+    # The library vendors a pure-Python RIPEMD-160 for exactly that reason; the reference hashes captured the real constructor
+    # at import. Installed before anything imports the library.
+    from .ref import hashes as _ref_hashes     # noqa: F401  (captures hashlib.new)
+    _real_hashlib_new = hashlib.new
+
+    def _hashlib_new_without_ripemd(name, data=b'', **kw):
+        if isinstance(name, str) and name.lower().replace('-', '') in ('ripemd160', 'rmd160'):
+            raise ValueError('unsupported hash type ' + name)
+        return _real_hashlib_new(name, data, **kw)
+    hashlib.new = _hashlib_new_without_ripemd
+
 VERIF = os.path.dirname(os.path.dirname(os.path.abspath(__file__)))
 REPO = os.path.abspath(os.environ.get('VERIF_REPO', '/repo'))
 MAX_NT_PER_SHARD = 250000
@@ -518,7 +532,7 @@ def replay(prop, path):
         # found by the pass that runs the interpreter with -O (asserts stripped): reproduce it the same way
         import subprocess
         return subprocess.call([sys.executable, '-B', '-c', 'from vlib.runner import entry; entry()', prop, '--replay', path],
-                               env=dict(os.environ, PYTHONOPTIMIZE='1'))
+                               env=dict(os.environ, PYTHONOPTIMIZE='1', VERIF_SIM_NO_RIPEMD='1'))
     out = io.StringIO()
     try:
         with contextlib.redirect_stdout(out):
@@ -599,14 +613,14 @@ def main(argv):
         evtmp = tempfile.mkdtemp(prefix='pyopt-ev.', dir=os.environ.get('VERIF_WORK') or tempfile.gettempdir())
         try:
             # (quick tier: generated-case counts scaled to 30 %, enumerations in full; thorough tier: the whole quick workload)
-            env = dict(os.environ, PYTHONOPTIMIZE='1', VERIF_EVIDENCE_DIR=evtmp, VERIF_NO_PYOPT='1', VERIF_SCALE='0.3' if tier == 'quick' else '1')
+            env = dict(os.environ, PYTHONOPTIMIZE='1', VERIF_SIM_NO_RIPEMD='1', VERIF_EVIDENCE_DIR=evtmp, VERIF_NO_PYOPT='1', VERIF_SCALE='0.3' if tier == 'quick' else '1')
             p = subprocess.run([sys.executable, '-B', '-c', 'from vlib.runner import entry; entry()', prop, 'quick'], env=env, capture_output=True, text=True)
             if p.returncode not in (0, 1) or not os.path.exists(os.path.join(evtmp, prop + '.json')):
                 print('HARNESS-ERROR property=%s python -O pass: rc=%d %s' % (prop, p.returncode, (p.stderr or p.stdout)[-1500:]), file=sys.stderr)
                 return 2
             ev2 = json.load(open(os.path.join(evtmp, prop + '.json')))
             pyopt_vios = ev2['violation_list']
-            pyopt_note = 'second pass under python -O (%s): %d evaluations, %d violation key(s), %.0fs' % (
+            pyopt_note = 'second pass under python -O and with hashlib.new("ripemd160") refusing as on OpenSSL 3 without the legacy provider (%s): %d evaluations, %d violation key(s), %.0fs' % (
                 'quick-tier workload' if tier != 'quick' else 'generated-case counts at 30 %, enumerations in full',
                 ev2['coverage']['evaluations'], ev2['violations'], ev2['wall_s'])
         finally:
